@@ -800,10 +800,15 @@ async fn run_uinner(sc: &UTimeScenario) -> Outcome {
     }
     trace!("unmanaged runtime {:?} pool timeout {:?} per-call {:?} state {}", runtime, pool_tmo, per_call, state);
     let p = pool.clone();
+    // the get family or the remove family (same rules for the single timeout)
+    let remove = choose_free(2) == 1;
+    trace!("entry point: {}", if remove { "remove / timeout_remove" } else { "get / timeout_get" });
     let mut task: Task<Result<u32, unmanaged::PoolError>> = Task::new(async move {
-        match per_call {
-            Some(t) => p.timeout_get(t.dur()).await.map(|o| *o),
-            None => p.get().await.map(|o| *o),
+        match (per_call, remove) {
+            (Some(t), false) => p.timeout_get(t.dur()).await.map(|o| *o),
+            (None, false) => p.get().await.map(|o| *o),
+            (Some(t), true) => p.timeout_remove(t.dur()).await,
+            (None, true) => p.remove().await,
         }
     });
     let mut now = 0u64;
